@@ -575,16 +575,28 @@ def rule_default_escape(ck):
     ap = "autoescape"
     if ap not in ti.params():
         raise AnalysisError("Template.__init__ has no autoescape parameter")
-    for s in q.stores_to(ti.node, "self.autoescape"):
-        v = _dflt(s.value)
-        ck.ob(rid, ti, s, v in (ap, "loader.autoescape", "_DEFAULT_AUTOESCAPE"), "a template's autoescape is its argument, else its loader's, else the default")
-    facts = must_facts(ti.cfg)
+    params_ = set(ti.params())
+    sites = []  # (statement, value, cfg node) of every value that ends up in self.autoescape
     for nd in ti.cfg.stmt_nodes(lambda nd: nd.kind == "stmt" and "self.autoescape" in q.assigned_paths(nd.ast)):
-        v = _dflt(nd.ast.value)
+        v_ = getattr(nd.ast, "value", None)
+        if isinstance(v_, ast.Name) and v_.id not in params_:
+            # the choice was made into a local first (an inlined helper's result): its definitions are the sites
+            defs_ = list(ti.cfg.stmt_nodes(lambda n, nm=v_.id: n.kind == "stmt" and nm in q.assigned_paths(n.ast)))
+            if not defs_ or any(not isinstance(d_.ast, ast.Assign) or len(d_.ast.targets) != 1 or not isinstance(d_.ast.targets[0], ast.Name) for d_ in defs_):
+                raise AnalysisError("Template.__init__: local %s stored in self.autoescape is not bound by plain assignments" % v_.id)
+            sites += [(d_.ast, d_.ast.value, d_) for d_ in defs_]
+        elif v_ is None:
+            raise AnalysisError("Template.__init__: store to self.autoescape not understood: %s" % q.unparse(nd.ast))
+        else:
+            sites.append((nd.ast, v_, nd))
+    facts = must_facts(ti.cfg)
+    for st_, v_, nd in sites:
+        v = _dflt(v_)
+        ck.ob(rid, ti, st_, v in (ap, "loader.autoescape", "_DEFAULT_AUTOESCAPE"), "a template's autoescape is its argument, else its loader's, else the default")
         if v == "loader.autoescape":
-            ck.ob(rid, ti, nd.ast, holds(facts[nd.id], "isinstance(%s, _UnsetMarker)" % ap, True) or holds(facts[nd.id], "%s is _UNSET" % ap, True), "the loader's setting is used only when no explicit argument was given")
+            ck.ob(rid, ti, st_, holds(facts[nd.id], "isinstance(%s, _UnsetMarker)" % ap, True) or holds(facts[nd.id], "%s is _UNSET" % ap, True), "the loader's setting is used only when no explicit argument was given")
         if v == "_DEFAULT_AUTOESCAPE":
-            ck.ob(rid, ti, nd.ast, (holds(facts[nd.id], "isinstance(%s, _UnsetMarker)" % ap, True) or holds(facts[nd.id], "%s is _UNSET" % ap, True)) and holds(facts[nd.id], "loader", False), "the default is used when neither argument nor loader decide")
+            ck.ob(rid, ti, st_, (holds(facts[nd.id], "isinstance(%s, _UnsetMarker)" % ap, True) or holds(facts[nd.id], "%s is _UNSET" % ap, True)) and holds(facts[nd.id], "loader", False), "the default is used when neither argument nor loader decide")
     # the constructor decides the setting *before* the text is parsed, so that an autoescape directive in the
     # text (which writes template.autoescape during _parse) is not overwritten afterwards
     pcalls = [n_ for n_, c_ in ti.cfg.find(lambda x: q.is_call(x, "_parse"))]
@@ -595,7 +607,7 @@ def rule_default_escape(ck):
     for pc in pcalls:
         c_ = [c for c in q.calls(pc.ast) if q.is_call(c, "_parse")][0]
         ck.ob(rid, ti, c_, len(c_.args) >= 2 and q.dotted(c_.args[1]) == "self", "the text is parsed for this template object (directives write this template's setting)")
-    n_def = sum(1 for s in q.stores_to(ti.node, "self.autoescape") if _dflt(s.value) == "_DEFAULT_AUTOESCAPE")
+    n_def = sum(1 for _st, v_, _nd in sites if _dflt(v_) == "_DEFAULT_AUTOESCAPE")
     ck.ob(rid, ti, ti.node, n_def == 1, "without argument and loader the template escapes with the default", construct="default store count %d" % n_def)
     bl = ck.func(T, "BaseLoader.__init__")
     a = bl.node.args
@@ -637,8 +649,10 @@ def run(ck):
     # replaced by their bodies at the call sites (vt.x_inline); what cannot be inlined stays a call
     # and is reported by guard_obligations below
     from .. import x_inline
+    from ..x_valuewalk import split_ifexp_assign
 
     ck.repo = x_inline.inline_repo(ck.repo, [T], keep=['_parse', '_get_ancestors', '_generate_python', '_format_code', '_create_template'])
+    ck.repo = split_ifexp_assign(ck.repo, T, ['__init__'])
     guard_obligations(ck, ['_parse', '_get_ancestors', '_generate_python', '_format_code', '_create_template'])
     ck.rule("C20.escape-before-append", "_Expression.generate: on every path that is neither raw nor autoescape-None the value variable is rebound to <current template's autoescape>(value) after its last other rebinding and before the append line")
     ck.rule("C20.raw-sites", "raw expression nodes are constructed only for the raw directive and (_Module) the module directive; .raw is written only by the constructor; raw defaults to False")
